@@ -18,7 +18,9 @@ RULE = (
     "apply_async-style executor, controlled multiprocessing.pool.Pool "
     "subclass} with every completion order of the futures for <= 4 (quick) / "
     "5 (thorough) settings and FIFO, reversal and every order within two "
-    "adjacent transpositions beyond; non-trivial = >= 2 arguments and >= 4 "
+    "adjacent transpositions beyond; plus grids of 81-512 (thorough 1024) "
+    "settings under every strategy with FIFO / reversed / rotated / "
+    "interleaved completion; non-trivial = >= 2 arguments and >= 4 "
     "settings"
 )
 ASSUMPTIONS = [
@@ -207,6 +209,9 @@ def cases(tier, seed):
                                order=list(range(n))[::-1])
                 yield dict(base, strat="shuffle", seed=True)
                 yield dict(base, strat="shuffle", seed=1 + (j % 32))
+                if j % 2:
+                    # (a seed that is falsy)
+                    yield dict(base, strat="shuffle", seed=0)
                 full_upto = 4 if tier == "quick" else 5
                 orders = completion_orders(n, full_upto)
                 if tier == "quick" and len(orders) > 24:
@@ -218,6 +223,32 @@ def cases(tier, seed):
                     for e in ex:
                         yield dict(base, strat=e,
                                    order=orders[(j + 1) % len(orders)])
+
+
+    # grids beyond any plausible internal window / chunk size (64, 100, 128,
+    # 256, 1000): every strategy, a few completion orders
+    big = [(3, 3, 3, 3), (4, 4, 4, 4), (4, 4, 2, 4, 2)]
+    if tier == "thorough":
+        big += [(4, 4, 4, 4, 4), (4, 4, 4, 4, 3)]
+    for bi, shp in enumerate(big):
+        n = 1
+        for s_ in shp:
+            n *= s_
+        for ki, (kind, split) in enumerate([("num", False), ("tuple2", True),
+                                            ("str", False)]):
+            base = {"shape": list(shp), "types": "ifsif"[bi % 2:][:len(shp)],
+                    "kind": kind, "split": split, "flat": (bi + ki) % 2 == 1,
+                    "spelling": ["dict", "tuple"][ki % 2], "nconst": ki % 3}
+            yield dict(base, strat="seq")
+            yield dict(base, strat="shuffle", seed=True)
+            yield dict(base, strat="shuffle", seed=5)
+            fifo = list(range(n))
+            orders = [fifo, fifo[::-1], fifo[n // 2:] + fifo[:n // 2],
+                      fifo[1::2] + fifo[0::2],
+                      fifo[:63] + fifo[63:][::-1]]
+            for oi, order in enumerate(orders):
+                yield dict(base, strat=["submit", "async", "fakepool"][
+                    (oi + ki) % 3], order=order)
 
 
 def worker_init():
